@@ -80,6 +80,7 @@ def snap(roots, skip_instance_keys=()):
     """
     s = Snapshot()
     seen = {}
+    unordered = set()
     stack = [(name, obj) for name, obj in reversed(list(roots.items()))]
     nodes, keep = s.nodes, s.keep
     while stack:
@@ -106,6 +107,8 @@ def snap(roots, skip_instance_keys=()):
             continue
         if isinstance(o, dict):
             keys = list(o.keys())
+            if oid in unordered:
+                keys.sort(key=_leaf_repr)  # the index of a keyed *set*: which items it holds is its state, their order is not
             nodes[path] = ("map", type(o).__name__, oid, tuple(_leaf_repr(k) for k in keys))
             for k in reversed(keys):
                 stack.append((f"{path}[{_leaf_repr(k)}]", o[k]))
@@ -122,6 +125,8 @@ def snap(roots, skip_instance_keys=()):
         d = getattr(o, "__dict__", None)
         if isinstance(d, dict):
             keys = [k for k in d.keys() if k not in skip_instance_keys]
+            if type(o).__name__ == "KeyedSet" and isinstance(d.get("_dict"), dict):
+                unordered.add(id(d["_dict"]))
             nodes[path] = ("obj", type(o).__name__, oid, tuple(keys))
             for k in reversed(keys):
                 stack.append((f"{path}.{k}", d[k]))
